@@ -455,7 +455,9 @@ def replay_native(harness, values=None, seed=None, profile="dev", timeout=30):
 if __name__ == "__main__":
     import sys
     sync_lock()
-    r = run_harness(sys.argv[1], sys.argv[2], timeout=int(sys.argv[3]) if len(sys.argv) > 3 else 900,
-                    playback="--pb" in sys.argv, keep="--keep" in sys.argv)
+    from table import HARNESSES
+    d = HARNESSES.get(sys.argv[1], {})
+    r = run_harness(sys.argv[1], sys.argv[2], loops=d.get("loops"), timeout=int(sys.argv[3]) if len(sys.argv) > 3 else 900,
+                    mem_gb=d.get("mem_gb", 14), keep="--keep" in sys.argv, optional_witnesses=d.get("opt", ()))
     r["stats"].pop("crate_functions", None)
     print(json.dumps(r, indent=1))
